@@ -132,6 +132,54 @@ Qed.
 
 Definition b0 : births := fun _ => 0.
 
+(* ---------- what a birth stamp is: the position, in the history, of a Set of that key ---------- *)
+Lemma step_keys (s : smap) (o : @op V) x :
+  In x (map fst (fst (s_step zero s o))) ->
+  In x (map fst s) \/ (exists v, o = OSet x v /\ s_has s x = false).
+Proof.
+  destruct o; cbn [s_step fst]; auto.
+  - destruct (s_has s k) eqn:Eh.
+    + rewrite (s_set_keys_present s k v (s_has_in s k Eh)). auto.
+    + rewrite (s_set_absent s k v (s_has_not_in s k Eh)), map_app, in_app_iff. cbn [map fst In].
+      intros [H|[<-|[]]]; [auto|]. right. exists v. auto.
+  - rewrite s_update_keys. auto.
+  - intros H. left. apply in_map_iff in H. destruct H as (z & <- & Hz). apply filter_In in Hz.
+    apply in_map, Hz.
+  - intros H. left. apply in_map_iff in H. destruct H as (z & <- & Hz). apply filter_In in Hz.
+    apply in_map, Hz.
+  - pose proof (s_map_keys s f) as Hk. destruct (s_map s f) as [[s' tr] ok]. simpl in *.
+    rewrite Hk. auto.
+  - destruct (s_each s f). auto.
+Qed.
+
+Definition stamped (full : list (@op V)) (st : smap * births) : Prop :=
+  forall x, In x (map fst (fst st)) -> exists v, nth_error full (snd st x) = Some (OSet x v).
+
+Lemma t_run_stamped ops : forall pre st, stamped (pre ++ ops) st ->
+  stamped (pre ++ ops) (t_run (length pre) st ops).
+Proof.
+  induction ops as [|o r IH]; intros pre st HS; cbn [t_run]; [exact HS|].
+  replace (S (length pre)) with (length (pre ++ [o])) by (rewrite app_length; simpl; lia).
+  replace (pre ++ o :: r) with ((pre ++ [o]) ++ r) in * by (rewrite <- app_assoc; reflexivity).
+  apply IH. destruct st as [s b]. intros x Hx. unfold t_step in *. cbn [fst snd] in *.
+  destruct (step_keys s o x Hx) as [Hin|(v & -> & Hab)].
+  - assert (Hb : (match o with OSet k _ => if s_has s k then b else upd b k (length pre) | _ => b end) x = b x).
+    { destruct o; try reflexivity. destruct (s_has s k) eqn:Eh; [reflexivity|].
+      unfold upd. destruct (Nat.eqb_spec x k) as [->|]; [|reflexivity].
+      exfalso. exact (s_has_not_in s k Eh Hin). }
+    rewrite Hb. apply (HS x Hin).
+  - rewrite Hab. unfold upd. rewrite Nat.eqb_refl. exists v.
+    rewrite <- app_assoc. rewrite nth_error_app2 by lia. rewrite Nat.sub_diag. reflexivity.
+Qed.
+
+Theorem births_are_sets ops :
+  let st := t_run 0 ([], b0) ops in
+  forall x, In x (map fst (fst st)) -> exists v, nth_error ops (snd st x) = Some (OSet x v).
+Proof.
+  cbv zeta. apply (t_run_stamped ops [] ([], b0)). intros x [].
+Qed.
+
+
 Theorem birth_sorted_spec ops :
   let st := t_run 0 ([], b0) ops in
   fst st = fst (s_run zero [] ops) /\ StronglySorted lt (map (snd st) (map fst (fst st))).
